@@ -3,6 +3,7 @@ package main
 import (
 	"bytes"
 	"fmt"
+	"io"
 	"os"
 	"path/filepath"
 
@@ -11,6 +12,7 @@ import (
 	"verif/internal/ev"
 	"verif/internal/gen"
 	"verif/internal/lzc"
+	"verif/internal/mon"
 	"verif/internal/prng"
 	"verif/internal/ref"
 )
@@ -141,15 +143,41 @@ func checkC12(c *ev.Ctx) {
 		b = append(b, f.trail...)
 		first := pool[f.idx[0]]
 		following := len(b) - f.lead - len(first.B)
-		for _, single := range []bool{false, true} {
-			id := fmt.Sprintf("%s-s%v", f.id, single)
+		for variant := 0; variant < 4; variant++ {
+			single := variant&1 == 1
+			eofWithData := variant&2 == 2
+			id := fmt.Sprintf("%s-s%v-e%v", f.id, single, eofWithData)
 			if !want(c, id) {
 				continue
 			}
-			out, err := libXZ(b, xz.ReaderConfig{DictCap: 4096, SingleStream: single})
-			c.Eval(fmt.Sprintf("n%d-pads%v-lead%d-trail%d-s%v", len(f.idx), f.pads, f.lead, len(f.trail), single), len(all) > 0)
+			// two kinds of source: a plain one and one that returns its last bytes together
+			// with io.EOF (the io.Reader contract allows both)
+			var out []byte
+			var err error
+			srcKind := "plain"
+			if eofWithData {
+				srcKind = "eof-with-data"
+				src := mon.NewSource(b)
+				src.Frag = "eofwith"
+				pn := mon.Guard(func() {
+					var r *xz.Reader
+					r, err = xz.ReaderConfig{DictCap: 4096, SingleStream: single}.NewReader(src)
+					if err != nil {
+						err = fmt.Errorf("open: %w", err)
+						return
+					}
+					out, err = io.ReadAll(r)
+				})
+				if pn != nil {
+					err = pn
+				}
+			} else {
+				out, err = libXZ(b, xz.ReaderConfig{DictCap: 4096, SingleStream: single})
+			}
+			c.Count("source:"+srcKind, 1)
+			c.Eval(fmt.Sprintf("n%d-pads%v-lead%d-trail%d-s%v-e%v", len(f.idx), f.pads, f.lead, len(f.trail), single, eofWithData), len(all) > 0)
 			det := map[string]any{"case_id": id, "streams": idsOf(pool, f.idx), "paddings": f.pads, "leading_padding": f.lead, "trailing_bytes": ev.Hex(f.trail, 16),
-				"single_stream": single, "file_len": len(b), "file_hex": ev.Hex(b, 1500), "error": fmt.Sprint(err), "delivered": len(out)}
+				"single_stream": single, "source": srcKind, "file_len": len(b), "file_hex": ev.Hex(b, 1500), "error": fmt.Sprint(err), "delivered": len(out)}
 			switch {
 			case single && f.lead > 0:
 				if err == nil {
